@@ -2195,10 +2195,26 @@ func writtenInTheCurrentFormat(c *Ctx, r *Report, rule string) {
 			if !ok {
 				return true
 			}
-			se, ok := ast.Unparen(call.Fun).(*ast.SelectorExpr)
-			if !ok || (se.Sel.Name != "PreSign" && se.Sel.Name != "Sign") {
+			name := ""
+			if se, ok := ast.Unparen(call.Fun).(*ast.SelectorExpr); ok && (se.Sel.Name == "PreSign" || se.Sel.Name == "Sign") {
+				name = se.Sel.Name
+			} else if cf := p.Callee(ce, call); cf != nil && p.firstParty(cf.Pkg()) {
+				// the step moved into a helper of the constructor
+				if h := p.ByObj[cf]; h != nil && h.Body != nil {
+					walkNoLit(h.Body, func(k ast.Node) bool {
+						if c2, ok := k.(*ast.CallExpr); ok {
+							if s2, ok := ast.Unparen(c2.Fun).(*ast.SelectorExpr); ok && (s2.Sel.Name == "PreSign" || s2.Sel.Name == "Sign") {
+								name = s2.Sel.Name
+							}
+						}
+						return true
+					})
+				}
+			}
+			if name == "" {
 				return true
 			}
+			se := &ast.SelectorExpr{Sel: ast.NewIdent(name)}
 			n++
 			stamped := false
 			for k := range before {
@@ -2212,7 +2228,7 @@ func writtenInTheCurrentFormat(c *Ctx, r *Report, rule string) {
 			return true
 		})
 	})
-	r.Floor(rule, "pre-sign and sign steps of the entry constructor", n, 2)
+	r.Floor(rule, "pre-sign and sign steps of the entry constructor", n, 1)
 }
 
 // dispatcherWaitsBeforeLeaving: the dispatch loop of the fetcher runs "while the queue is not empty", and the queue
